@@ -267,6 +267,57 @@ theorem makeUnique_names {d d' : Design} {q k x : Nat}
       rw [(hold i hi').2.1, (hold j hj').2.1] at hlib
       exact hu i (by simpa using hi') j (by simpa using hj') hij hlib hnm
 
+theorem mem_libEids {d : Design} {j l : Nat} {s : String} (hj : j < d.ndefs) (hl : (d.defs j).lib = l)
+    (hs : (d.defs j).eid = some s) : lowerStr s ∈ d.libEids l := by
+  simp only [Design.libEids, List.mem_filterMap, List.mem_range]
+  exact ⟨j, hj, by simp [hl, hs]⟩
+
+theorem makeUnique_eid_old {d d' : Design} {q k x : Nat} (h : makeUnique d q k x = some d') {j : Nat}
+    (hj : j ≠ d.ndefs) : (d'.defs j).eid = (d.defs j).eid := by
+  obtain ⟨D', c, _, _, hdefs, _⟩ := makeUnique_some h
+  rw [hdefs]
+  simp only [hj, if_false]
+  split
+  · rename_i hq; subst hq; rfl
+  · rfl
+
+theorem makeUnique_eids {d d' : Design} {q k x : Nat}
+    (h : makeUnique d q k x = some d') (hu : DefEidsUnique d) : DefEidsUnique d' := by
+  obtain ⟨D', cc, hcl, hn, hdefs, _⟩ := makeUnique_some h
+  have hold := fun j (hj : j < d.ndefs) => makeUnique_ports_old h (Nat.ne_of_lt hj)
+  have holde := fun j (hj : j < d.ndefs) => makeUnique_eid_old h (Nat.ne_of_lt hj)
+  have hnew := makeUnique_new h
+  have heid := cloneDefn_eid hcl
+  have hD' : d'.defs d.ndefs = D' := by rw [hdefs]; simp
+  -- an old definition of the copy's library does not carry the copy's identifier
+  have hfresh : ∀ j, j < d.ndefs → (d.defs j).lib = (d.defs x).lib → ∀ a b, D'.eid = some a → (d.defs j).eid = some b →
+      lowerStr a ≠ lowerStr b := by
+    intro j hj hlib a b ha hb e
+    rcases heid with ⟨_, h2⟩ | ⟨e0, k0, _, h2, h3⟩
+    · rw [h2] at ha; cases ha
+    · rw [h2] at ha; cases ha
+      exact h3 (e ▸ mem_libEids hj hlib hb)
+  intro i hi j hj hij hlib a b ha hb
+  simp only [List.mem_range, hn] at hi hj
+  by_cases hin : i = d.ndefs
+  · subst hin
+    have hjn : j < d.ndefs := by omega
+    rw [holde j hjn] at hb
+    rw [hD'] at ha
+    rw [hnew.2.1, (hold j hjn).2.1] at hlib
+    exact hfresh j hjn hlib.symm a b ha hb
+  · have hi' : i < d.ndefs := by omega
+    rw [holde i hi'] at ha
+    by_cases hjn : j = d.ndefs
+    · subst hjn
+      rw [hD'] at hb
+      rw [hnew.2.1, (hold i hi').2.1] at hlib
+      exact fun e => hfresh i hi' hlib b a hb ha e.symm
+    · have hj' : j < d.ndefs := by omega
+      rw [holde j hj'] at hb
+      rw [(hold i hi').2.1, (hold j hj').2.1] at hlib
+      exact hu i (by simpa using hi') j (by simpa using hj') hij hlib a b ha hb
+
 /-! ### a unique design is a fixpoint -/
 
 theorem uLoop_fix {d : Design} (hU : Unique d) (fuel : Nat) : ∀ s : UState, s.d = d →
